@@ -98,7 +98,17 @@ func toSpec(ssb builder.SelectorSpecBuilder, s refsel.Sel) builder.SelectorSpec 
 func Config(r *graph.Real) *traversal.Config {
 	cfg := &traversal.Config{
 		LinkSystem: r.LSys,
-		LinkTargetNodePrototypeChooser: func(datamodel.Link, linking.LinkContext) (datamodel.NodePrototype, error) {
+		LinkTargetNodePrototypeChooser: func(l datamodel.Link, _ linking.LinkContext) (datamodel.NodePrototype, error) {
+			// a chooser may know what a link leads to and ask for the kind-specific prototype: it does for graphs
+			// whose number of blocks is 2 mod 3 (a deterministic function of the case)
+			if r.NBlocks%3 == 2 {
+				switch r.BlockKinds[l.Binary()] {
+				case val.Map:
+					return basicnode.Prototype.Map, nil
+				case val.List:
+					return basicnode.Prototype.List, nil
+				}
+			}
 			return basicnode.Prototype.Any, nil
 		},
 	}
